@@ -46,6 +46,9 @@ def content(key, size, gen=0, seed=None, mode="rand"):
     s = SEED if seed is None else seed
     if mode == "zeros":
         return bytes(size)
+    if mode == "xl":               # the default content of this key with every byte changed (still 1..255)
+        table = bytes(((x - 1 + 97) % 255) + 1 if x else 7 for x in range(256))
+        return content(key, size, gen, seed, "rand").translate(table)
     if mode == "const":            # one non-zero byte value throughout (erased flash, filler), the same for every key
         return bytes([0xA5 + s % 7]) * size
     if mode == "same":
